@@ -142,7 +142,7 @@ def run_unit(unit, rec):
     first_default = None
     # per-sample receptor weights registered with the targets (not those given to the constructor): strongly non-uniform, different per row
     Wreg = np.array([np.roll(np.array([3.0, 0.4, 1.5, 0.6, 2.0][:m]), k) for k in range(len(T))])
-    for L1name, L1 in (("none", None), ("per-sample", adm), ("scalar", float(adm[0])), ("per-sample/batch2", adm), ("none/registered-weights", None), ("none/batch3", None)):
+    for L1name, L1 in (("none", None), ("per-sample", adm), ("scalar", float(adm[0])), ("per-sample/batch2", adm), ("none/registered-weights", None), ("none/batch3", None), ("per-sample/wide-band", adm)):
         P = P_all if L1name != "scalar" else P_all[:1]
         T_run = T if L1name != "scalar" else T[:1]
         sig = dict(base, L1=L1name)
@@ -154,6 +154,13 @@ def run_unit(unit, rec):
             kwargs["Epsilon"] = Eps_arg
         if L1 is not None:
             kwargs["L1"] = L1
+        wide = L1name.endswith("wide-band")
+        band = 0.0
+        if wide:
+            # the requested total may be missed by l1_eps (here 10 % of the smallest requested total), much more than l2_eps
+            band = 0.1 * float(np.min(adm))
+            kwargs["l1_eps"] = band
+            kwargs["solver"] = "CLARABEL"
         if L1name.endswith("batch3"):
             # five targets in batches of three: the last batch holds two real samples and one padded sample
             kwargs["batch_size"] = 3
@@ -216,7 +223,7 @@ def run_unit(unit, rec):
                 bad = ("a", "returned intensities violate the bounds")
             elif l1_i is None and err > opt + 1e-4 + (2e-3 if wreg else 2e-2):
                 bad = ("b", "capture error %.4g exceeds the best achievable error %.4g by more than the tolerance" % (err, opt))
-            elif l1_i is not None and abs(np.sum(x) - l1_i) > 1e-2 + 1e-3:
+            elif l1_i is not None and abs(np.sum(x) - l1_i) > (band if wide else 1e-2) + 1e-3:
                 bad = ("c", "total intensity %.5g does not match the requested %.5g within l1_eps" % (np.sum(x), l1_i))
             else:
                 # feasible set of the unrelaxed problem: best-fit intensities (and exact total)
@@ -237,6 +244,13 @@ def run_unit(unit, rec):
                     if posdim:
                         rec.distinct((spec, var, L1name, idx))
                     rec.stat_max("variance_excess_rel", (val - fs) / (1e-12 + fs))
+                    if wide:
+                        # any admissible point bounds the optimum from above: also the exact fits whose total sits on either edge of the band
+                        for edge in (l1_i - band, l1_i + band):
+                            Ve = O.poly_vertices(np.vstack([Abar, np.ones(n)]), np.concatenate([bfit, [edge]]), lo, hi) if Abar.shape[0] + 1 <= n else np.zeros((0, n))
+                            if len(Ve):
+                                _, fe, _ = O.min_over_hull(fobj, gobj, Ve)
+                                fs = min(fs, fe)
                     if val > fs * (1 + 1e-2) + 1e-3:
                         bad = ("d", "summed capture variance %.6g is larger than that of a feasible point %.6g" % (val, fs))
                     elif X0 is not None and l1_i is None and val > fobj(np.clip(X0[idx], lo, hi)) * (1 + 1e-2) + 1e-3:
